@@ -17,6 +17,18 @@ CHECKS = {
           'wire', 'DESIGN.md section 4 C11',
           'Streams interleaving well-formed items with every malformed class named by the property (plus byte mutations, over-long items, length-prefix corruption) through the real listeners under generated segmentations; oracle: no exception leaves the handler, no disconnect unless an item exceeded the maximum length, delivered datapoints equal those of the stream with the malformed items removed. Three genuine defects found and fixed (see KNOWN_FINDINGS.txt).',
           'Items whose acceptance the documentation leaves open (bytes names, numeric strings, bools, negative timestamps) are not generated. Twisted framing trusted.'),
+  'C02': ('exploration', 'schedule-generating property-based testing: deterministic line-granular scheduler + linearizability oracle; bounded-preemption enumeration in the thorough tier',
+          'sched', 'DESIGN.md section 4 C02',
+          'Generated store/drain/query histories for a receiving and a writer thread under generated (and, thorough, all <=2-preemption) line-level schedules and all six strategies; exact linearizability search against the sequential map-of-maps specification with a final full read, size invariant at every lock-free scheduling point.',
+          'Granularity is one source line (opcode-level races are out of reach); queries run on the receiving thread as in the daemon.'),
+  'C10': ('exploration', 'schedule-generating property-based testing with a bounded sequential specification (linearizability incl. overflow signals) and per-scheduling-point invariants',
+          'sched', 'DESIGN.md section 4 C10',
+          'As C02 with MAX_CACHE_SIZE 1..6,20 x flow control; bound and no-empty-entry invariants at every scheduling point; refusals must signal exactly once and change nothing; duplicates accepted when full; derived hard limit produced by carbon\'s own postOptions and compared with the documented 100%/105%. One genuine defect found and fixed.',
+          'ceil() of a fractional hard limit is the reachable bound (stated in DESIGN.md).'),
+  'C17': ('exploration', 'schedule-generating property-based testing with strategy-specific sequential specifications (pass fairness, maximum, lag) checked by linearizability search',
+          'sched', 'DESIGN.md section 4 C17',
+          'Store/drain histories x schedules x six strategies x lag {0,5} x bounded/unbounded with a virtual clock, followed by draining to exhaustion; strategy contracts are part of the sequential spec. One genuine defect (bucketmax choose/pop race) found and fixed.',
+          'Pass = documented "loop of the cache"; ties may be broken either way.'),
 }
 
 PENDING_REASON = 'check not built yet in this session (design in DESIGN.md section 4); will be claimed once its check is quiet on the unchanged tree and catches its mutants'
@@ -66,6 +78,8 @@ def main():
 
 NA = {}
 ENGINES = [
+  {'name': 'sched', 'path': 'verif/sched.py', 'serves_properties': ['C02', 'C03', 'C04', 'C09', 'C10', 'C17', 'C20'],
+   'kind_free_text': 'deterministic cooperative scheduler (sys.settrace line events, scheduler-aware lock, virtual clock) with schedules as data; linearizability search in verif/lin.py; cache driver in verif/cachesim.py'},
   {'name': 'wire', 'path': 'verif/wire.py', 'serves_properties': ['C01', 'C11', 'C12', 'C13', 'C15'],
    'kind_free_text': 'listener protocols on StringTransport, generated segmentation, independent decoders, mini pickle assembler (verif/pkl.py)'},
 ]
